@@ -32,6 +32,7 @@ ASSUMPTIONS = [
 OUTSIDE = ['AES / scrypt / PBKDF2', 'power-loss durability', 'Wallet.pack/unpack sync payloads', 'real BIP32 key objects']
 
 VM = [None]
+WALLET_PATH = '/nonexistent-symvm-model-fs/wallets/wallet'      # only ever exists in the model file system
 
 
 class Crash(BaseException):
@@ -47,6 +48,7 @@ class ModelFS:
         self.crash_at = crash_at
         self.rename_fails = False
         self.log = []
+        self.fds = {}
 
     def step(self, what):
         """One file-system operation is about to take effect."""
@@ -59,6 +61,7 @@ class ModelFS:
 class FileW:
     def __init__(self, fs, path):
         self.fs, self.path = fs, path
+        self.name = path
 
     def __enter__(self):
         return self
@@ -66,8 +69,16 @@ class FileW:
     def __exit__(self, *a):
         return False
 
+    def close(self):
+        return None
+
+    def read(self):
+        return self.fs.files[self.path]
+
     def write(self, data):
         fs = self.fs
+        if isinstance(data, (bytes, bytearray)):
+            data = bytes(data).decode()
         fs.log.append('write')
         if fs.ops == fs.crash_at:
             k = fs.vm.pick('torn_at', len(data) + 1)      # a torn write leaves any prefix
@@ -92,9 +103,9 @@ def atomic_write(vm, has_old, rename_fails):
     new_dict = {'version': 1, 'name': 'w', 'preferences': {}, 'accounts': ['NEW-A', 'NEW-B']}
     new = json.dumps(new_dict, indent=4, sort_keys=True)
     if has_old:
-        fs.files['/w/wallet'] = old
-        fs.modes['/w/wallet'] = 0o600
-    storage = WalletStorage('/w/wallet')
+        fs.files[WALLET_PATH] = old
+        fs.modes[WALLET_PATH] = 0o600
+    storage = WalletStorage(WALLET_PATH)
     crashed = False
     try:
         storage.write(new_dict)
@@ -102,7 +113,7 @@ def atomic_write(vm, has_old, rename_fails):
         crashed = True
     except Exception as e:
         return 'VIOLATION: WalletStorage.write raised %s' % type(e).__name__
-    on_disk = fs.files.get('/w/wallet')
+    on_disk = fs.files.get(WALLET_PATH)
     if not crashed:
         if on_disk != new:
             return 'VIOLATION: after a completed save the wallet file is not the new content'
@@ -303,6 +314,57 @@ def lock_unlock(vm, shape):
     return 'ok-refused'
 
 
+def save_sequences(vm, k):
+    """Every sequence of k wallet operations (encrypt / lock / unlock right or other password / add an account / save /
+    decrypt): whenever a file is written while encryption is enabled and a password is set, it holds no plaintext secret."""
+    VM[0] = vm
+    pw = vm.new_str('password', 2)
+    other = vm.new_str('other_password', 2)
+    if len(pw) == 0:
+        return 'ok-blank-password'                         # Wallet.encrypt refuses a blank password
+    accounts = [StubAccount('a0', 'seed words of account 0', 'xprv-token-0')]
+    secrets = ['seed words of account 0', 'xprv-token-0']
+    storage = CaptureStorage()
+    wallet = Wallet('w', accounts, storage, {})
+    checked = 0
+    for step in range(k):
+        op = vm.pick('op', 7)
+        try:
+            if op == 0:
+                if wallet.is_locked:
+                    continue
+                wallet.encrypt(pw)
+            elif op == 1:
+                if wallet.encryption_password is None:
+                    continue
+                wallet.lock()
+            elif op == 2:
+                vm.await_(wallet.unlock(pw))
+            elif op == 3:
+                vm.await_(wallet.unlock(other))
+            elif op == 4:
+                n = len(wallet.accounts)
+                wallet.accounts.append(StubAccount('a%d' % n, 'seed words of account %d' % n, 'xprv-token-%d' % n))
+                secrets.extend(['seed words of account %d' % n, 'xprv-token-%d' % n])
+            elif op == 5:
+                wallet.save()
+            else:
+                if wallet.is_locked:
+                    continue
+                wallet.decrypt()
+        except Exception as e:
+            return 'VIOLATION: wallet operation %d raised %s' % (op, type(e).__name__)
+        for d in storage.written[checked:]:
+            if wallet.preferences.get(ENCRYPT_ON_DISK, False) and wallet.encryption_password is not None:
+                if has_plaintext(d, secrets):
+                    return 'VIOLATION: a save with encryption enabled wrote a plaintext seed or private key'
+                for a in d['accounts']:
+                    if not a['encrypted']:
+                        return 'VIOLATION: an account is saved as unencrypted although encryption is enabled'
+        checked = len(storage.written)
+    return 'ok' if checked else 'ok-nothing-written'
+
+
 # ------------------------------------------------------------------------------------------------ runner interface
 def fs_models(fs_holder):
     """(callable, replacement) pairs: the same replacements serve the interpreter (as models) and the native replay."""
@@ -317,10 +379,82 @@ def fs_models(fs_holder):
             self.st_mode = mode
 
     def m_open(path, mode='r', *a, **k):
+        if isinstance(path, int):                   # open(fd, ...)
+            return FileW(fs(), fs().fds[path])
+        if 'r' in mode:
+            if path not in fs().files:
+                raise FileNotFoundError(path)
+            if '+' in mode:
+                raise NotImplementedError('model file system: update mode')
+            return FileW(fs(), path)
+        if 'x' in mode and path in fs().files:
+            raise FileExistsError(path)
         fs().step('open ' + mode)
-        fs().files[path] = ''
+        if 'a' not in mode or path not in fs().files:
+            fs().files[path] = ''
         fs().modes.setdefault(path, 0o644)
         return FileW(fs(), path)
+
+    def m_os_open(path, flags, mode=0o777, *a, **k):
+        exists = path in fs().files
+        if exists and (flags & os.O_CREAT) and (flags & os.O_EXCL):
+            raise FileExistsError(path)
+        if not exists and not (flags & os.O_CREAT):
+            raise FileNotFoundError(path)
+        if not exists or (flags & os.O_TRUNC):
+            fs().step('os.open')
+            fs().files[path] = ''
+            if not exists:
+                fs().modes[path] = mode
+        fd = 100 + len(fs().fds)
+        fs().fds[fd] = path
+        return fd
+
+    def m_fdopen(fd, *a, **k):
+        return FileW(fs(), fs().fds[fd])
+
+    def m_os_write(fd, data):
+        FileW(fs(), fs().fds[fd]).write(data)
+        return len(data)
+
+    def m_close(fd):
+        return None
+
+    def m_link(src, dst, *a, **k):
+        if dst in fs().files:
+            raise FileExistsError(dst)
+        fs().step('link')
+        fs().files[dst] = fs().files[src]
+        fs().modes[dst] = fs().modes.get(src, 0o644)
+
+    def m_copyfile(src, dst, *a, **k):
+        content = fs().files[src]
+        f = m_open(dst, 'w')
+        f.write(content)
+        return dst
+
+    def m_move(src, dst, *a, **k):
+        m_rename(src, dst)
+        return dst
+
+    def m_mkstemp(suffix='', prefix='tmp', dir=None, text=False):
+        path = (dir or '/tmp') + '/' + prefix + 'mkstemp%d' % len(fs().fds) + (suffix or '')
+        return m_os_open(path, os.O_RDWR | os.O_CREAT | os.O_EXCL, 0o600), path
+
+    def m_named_temp(mode='w+b', buffering=-1, encoding=None, newline=None, suffix=None, prefix=None, dir=None, delete=True, **k):
+        if delete:
+            raise NotImplementedError('model file system: self-deleting temporary file')
+        fd, path = m_mkstemp(suffix or '', prefix or 'tmp', dir)
+        return FileW(fs(), path)
+
+    def m_truncate(path, length=0):
+        fs().step('truncate')
+        fs().files[path] = fs().files[path][:length]
+
+    def m_getsize(path):
+        if path not in fs().files:
+            raise FileNotFoundError(path)
+        return len(fs().files[path])
 
     def m_fsync(fd):
         fs().step('fsync')
@@ -357,8 +491,15 @@ def fs_models(fs_holder):
     def m_getpid():
         return 4242
 
+    import shutil
+    import tempfile
     return [(builtins, 'open', m_open), (os, 'fsync', m_fsync), (os.path, 'exists', m_exists), (os, 'stat', m_stat),
-            (os, 'rename', m_rename), (os, 'replace', m_replace), (os, 'remove', m_remove), (os, 'chmod', m_chmod), (os, 'getpid', m_getpid)]
+            (os, 'rename', m_rename), (os, 'replace', m_replace), (os, 'remove', m_remove), (os, 'chmod', m_chmod), (os, 'getpid', m_getpid),
+            (os, 'open', m_os_open), (os, 'fdopen', m_fdopen), (os, 'write', m_os_write), (os, 'close', m_close),
+            (os, 'unlink', m_remove), (os, 'link', m_link), (os, 'fdatasync', m_fsync), (os, 'truncate', m_truncate),
+            (os.path, 'isfile', m_exists), (os.path, 'lexists', m_exists), (os.path, 'getsize', m_getsize),
+            (shutil, 'copyfile', m_copyfile), (shutil, 'copy', m_copyfile), (shutil, 'copy2', m_copyfile), (shutil, 'move', m_move),
+            (tempfile, 'mkstemp', m_mkstemp), (tempfile, 'NamedTemporaryFile', m_named_temp)]
 
 
 def sym_setup(vm, job):
@@ -431,6 +572,11 @@ def jobs(tier):
                         bounds=dict(accounts=''.join(shape) + ' (s seeded, k key-only, w watch-only)', passwords='two symbolic strings, '
                                     'equal or different', wrong_key='raises or decrypts to garbage (symbolic)'),
                         must_reach=('ok-unlocked',) + (('ok-refused',) if any(k != 'w' for k in shape) else ())))
+    for k in ((4,) if tier == 'quick' else (4, 5, 6)):
+        out.append(dict(name=f'save-sequences-{k}', family='secrets', fn='save_sequences', args=(k,), loop_bound=200, max_depth=60,
+                        cost=7 ** k, bounds=dict(operations=k, operation_kinds='encrypt / lock / unlock(password) / unlock(other) / '
+                                                 'add account / save / decrypt', passwords='two symbolic strings'),
+                        must_reach=('ok',)))
     return out
 
 
